@@ -166,8 +166,33 @@ def defect_dump(p, logs):
     return T.alpha_normalise(d)
 
 
+def _is_poly(x):
+    return isinstance(x, list) and all(isinstance(t, list) and len(t) == 2 and isinstance(t[0], str) and "/" in t[0]
+                                       and isinstance(t[1], list) for t in x)
+
+
+def coarse(x):
+    """classification only: polynomials as {monomial: float rounded to 9 digits}, tiny coefficients dropped"""
+    if _is_poly(x):
+        d = {}
+        for c, m in x:
+            v = float(Fraction(c))
+            if abs(v) > 1e-12:
+                d[json.dumps(m)] = float(f"{v:.9g}")
+        return d
+    if isinstance(x, list):
+        return [coarse(t) for t in x]
+    if isinstance(x, dict):
+        return {k: coarse(v) for k, v in x.items()}
+    return x
+
+
 def approx_equal(a, b, tol=1e-9):
-    """same structure, coefficient strings "p/q" equal up to relative tol (classification only)"""
+    """same structure, coefficients equal up to rounding (classification of the known float finding only)"""
+    return coarse(a) == coarse(b)
+
+
+def approx_equal_old(a, b, tol=1e-9):
     if isinstance(a, list) and isinstance(b, list):
         return len(a) == len(b) and all(approx_equal(x, y, tol) for x, y in zip(a, b))
     if isinstance(a, dict) and isinstance(b, dict):
@@ -591,13 +616,16 @@ def run(ctx):
         ctx.violation("proof-broken", {"theorem": "props/C19.v", "log": log[-3000:]}, "props/C19.v no longer checks", no_input=True)
         return
     hist = {"spelling": {}, "mutation": {}, "error": {}, "known": {}, "analysis_shapes": {}}
-    mirror_crosscheck(ctx)
-    parse_correspondence(ctx, hist)
-    precedence_check(ctx, hist)
-    malformed_check(ctx, hist)
-    invalid_probability_check(ctx, hist)
-    analysis_check(ctx, hist)
-    quirk_stream(ctx)
+    import time
+    walls = {}
+    for name, fn in (("mirror", lambda: mirror_crosscheck(ctx)), ("parse", lambda: parse_correspondence(ctx, hist)),
+                     ("precedence", lambda: precedence_check(ctx, hist)), ("malformed", lambda: malformed_check(ctx, hist)),
+                     ("probabilities", lambda: invalid_probability_check(ctx, hist)),
+                     ("analysis", lambda: analysis_check(ctx, hist)), ("quirks", lambda: quirk_stream(ctx))):
+        t0 = time.time()
+        fn()
+        walls[name] = round(time.time() - t0, 1)
+    ctx.coverage["phase_wall_s"] = walls
     ctx.coverage["rule"] = (
         "program ASTs from textgen.ProgGen (nested if/elif/else, 2-4-way choices with constant, compound and parametric "
         "probabilities, simultaneous assignment, draws, types block, conditions with ! && ||), each written in the spellings "
